@@ -11,6 +11,7 @@ package main
 // Arithmetic that merely scales (x * const, x / const) keeps the leaves of x.
 
 import (
+	"go/constant"
 	"fmt"
 	"go/token"
 	"go/types"
@@ -161,7 +162,18 @@ func (fi *flowInfo) leaves(v ssa.Value) map[string]bool {
 					if len(vals) == 0 {
 						out["zero"] = true
 					}
+					// an explicit zero in the variable's initialisation (T{F: 0}) is the
+					// implicit zero value spelled out
+					// (like the implicit one it only shows when nothing else is stored)
+					nInit := initZeroStores(al, pathOf(a))
+					if nInit >= len(vals) && len(vals) > 0 {
+						out["zero"] = true
+					}
 					for _, sv := range vals {
+						if nInit > 0 && isZeroConst(sv) {
+							nInit--
+							continue
+						}
 						add(fi.leaves(sv))
 					}
 					break
@@ -523,6 +535,11 @@ func (fi *flowInfo) structValueField(v ssa.Value, path []string, depth int) ([]s
 		return nil, false
 	}
 	switch x := v.(type) {
+	case *ssa.Const:
+		if x.Value == nil {
+			return nil, true // the zero value of the struct: nothing was put into the field
+		}
+		return nil, false
 	case *ssa.UnOp:
 		if x.Op != token.MUL {
 			return nil, false
@@ -610,6 +627,84 @@ func (fi *flowInfo) nonNilAtReturn(ret *ssa.Return, i int) bool {
 	}
 	for _, f := range w.factsAt(ret) {
 		if v, isNil, ok := nilFact(f); ok && !isNil && (v == rv || v == ret.Results[i] || w.sameKey(v, rv)) {
+			return true
+		}
+	}
+	return false
+}
+
+// isZeroConst: v is the zero value of its type written as a constant.
+func isZeroConst(v ssa.Value) bool {
+	c, ok := v.(*ssa.Const)
+	if !ok {
+		return false
+	}
+	if c.Value == nil {
+		return true
+	}
+	switch c.Value.Kind() {
+	case constant.Int, constant.Float:
+		return constant.Sign(c.Value) == 0
+	case constant.String:
+		return constant.StringVal(c.Value) == ""
+	case constant.Bool:
+		return !constant.BoolVal(c.Value)
+	}
+	return false
+}
+
+// initZeroStores: the stores of a zero constant into field `path` of local object al that
+// belong to its initialisation: in the allocating block, before anything but field stores
+// touches the object.
+func initZeroStores(al *ssa.Alloc, path []string) int {
+	b := al.Block()
+	if b == nil {
+		return 0
+	}
+	n := 0
+	started := false
+	for _, in := range b.Instrs {
+		if in == ssa.Instruction(al) {
+			started = true
+			continue
+		}
+		if !started {
+			continue
+		}
+		switch x := in.(type) {
+		case *ssa.FieldAddr, *ssa.DebugRef, *ssa.Alloc, *ssa.IndexAddr:
+			continue
+		case *ssa.Store:
+			if a, p := allocBase(x.Addr); a == al {
+				if samePath(p, path) && isZeroConst(x.Val) {
+					n++
+				}
+				continue
+			}
+			if usesValue(in, al) {
+				return n
+			}
+		default:
+			if usesValue(in, al) {
+				return n
+			}
+			// an instruction that could reach the object through a derived address
+			for _, op := range in.Operands(nil) {
+				if *op == nil {
+					continue
+				}
+				if a, _ := allocBase(*op); a == al {
+					return n
+				}
+			}
+		}
+	}
+	return n
+}
+
+func usesValue(in ssa.Instruction, v ssa.Value) bool {
+	for _, op := range in.Operands(nil) {
+		if *op == v {
 			return true
 		}
 	}
